@@ -16,7 +16,7 @@ const MODES: [&str; 6] = ["none", "at-sp", "at-sp+8", "last-word-of-stack", "bel
 #[derive(Clone, Debug)]
 pub struct Case {
     modes: [usize; 3],
-    principal: usize, // 0 dedicated executable region, 1 thread 0's code page, 2 address in no mapping, 3 dedicated non-executable region
+    principal: usize, // 0 dedicated executable region, 1 thread 0's code page, 2 address in no mapping, 3 dedicated non-executable region, 4 executable region at a fixed low address (below the executable), 5 the executable's own text mapping
     ctx: usize,       // 0 off, 1 on: rip outside, 2 on: rip inside principal, 3 on: rip == end of principal
     /// stack sanitising on as well (it must not influence which stacks are kept)
     sanitize: bool,
@@ -40,6 +40,11 @@ pub struct Target {
     p: Puppet,
     region: u64, // dedicated principal region (2 pages, executable)
     region_rw: u64, // a second dedicated region that is NOT executable (data mapping as principal mapping)
+    /// a region at a fixed LOW address (below the executable: the writer moves the entry-point mapping to the
+    /// front of its list, so its list is not address-sorted in this target); 0 if the address was taken
+    region_low: u64,
+    /// an address range inside the puppet executable's text mapping
+    exe_text: (u64, u64),
     sp: [u64; 3],
     hi: [u64; 3], // end of each thread's stack mapping
     /// index (in p.threads) of the first of the three test threads
@@ -56,6 +61,16 @@ fn make_target(flavour: u8) -> Target {
     }
     let region = p.pattern(2, "hole", "rx");
     let region_rw = p.pattern(2, "hole", "rw");
+    let region_low = p.cmd("pattern_at 0x20000000 2 rx").ok().and_then(|r| r.first().map(|a| u64::from_str_radix(a.trim_start_matches("0x"), 16).unwrap_or(0))).unwrap_or(0);
+    // the executable as the writer sees it: the merged extent of the contiguous lines that carry its name
+    let exe_text = {
+        let lines = mdv_core::mapsref::parse_maps(&p.maps_text()).unwrap_or_default();
+        let mine: Vec<_> = lines.iter().filter(|l| l.name.as_deref().map(|n| n.ends_with(b"/puppet")).unwrap_or(false)).collect();
+        match (mine.first(), mine.last()) {
+            (Some(a), Some(b)) if mine.windows(2).all(|w| w[0].end == w[1].start) => (a.start, b.end),
+            _ => (0, 0),
+        }
+    };
     let mut sp = [0u64; 3];
     let mut hi = [0u64; 3];
     for i in 0..3 {
@@ -82,7 +97,7 @@ fn make_target(flavour: u8) -> Target {
     // scrub the captured part of the stacks of anything that might look like a pointer into the regions
     p.quiesce();
     let first = if flavour >= 1 { 22 } else { 0 };
-    Target { p, region, region_rw, sp, hi, first, flavour }
+    Target { p, region, region_rw, region_low, exe_text, sp, hi, first, flavour }
 }
 
 fn expected_reference(mem: &[u8], base: u64, sp: u64, low: u64, high: u64) -> bool {
@@ -104,6 +119,9 @@ pub fn run_case(t: &mut Target, c: &Case) -> Vec<(String, String)> {
         0 => (t.region, t.region + 2 * 4096),
         1 => (t.p.threads[t.first].page, t.p.threads[t.first].page + 4096),
         3 => (t.region_rw, t.region_rw + 2 * 4096),
+        4 if t.region_low != 0 => (t.region_low, t.region_low + 2 * 4096),
+        5 if t.exe_text.0 != 0 => t.exe_text,
+        4 | 5 => return fails, // this target could not provide the shape
         _ => (0x10, 0x10),
     };
     let ptr = if c.principal == 2 { t.region + 0x20 } else { low + 0x20 };
@@ -217,7 +235,7 @@ fn cases(thorough: bool) -> Vec<Case> {
         mdv_core::lat::lat(&sizes, 2, |t| tuples.push(t.to_vec()));
     }
     for t in tuples {
-        for principal in 0..4 {
+        for principal in 0..6 {
             for ctx in 0..4 {
                 if !thorough && ctx >= 2 && t.iter().filter(|x| **x != 0).count() > 1 {
                     continue;
@@ -227,7 +245,7 @@ fn cases(thorough: bool) -> Vec<Case> {
                     v.push(Case { modes: [t[0], t[1], t[2]], principal, ctx, sanitize: true, flavour: 0 });
                 }
                 // crowded targets with the size limit engaged (the test threads' stacks are cut to 2 KiB)
-                if ctx < 2 && (principal == 0 || principal == 3) && (thorough || t.iter().filter(|x| **x != 0).count() <= 1) {
+                if ctx < 2 && (principal == 0 || principal == 3 || principal == 4) && (thorough || t.iter().filter(|x| **x != 0).count() <= 1) {
                     v.push(Case { modes: [t[0], t[1], t[2]], principal, ctx, sanitize: false, flavour: 1 });
                     v.push(Case { modes: [t[0], t[1], t[2]], principal, ctx, sanitize: false, flavour: 2 });
                 }
